@@ -34,6 +34,7 @@ import (
 
 	"github.com/medibloc/panacea-core/v2/app"
 	burntypes "github.com/medibloc/panacea-core/v2/x/burn/types"
+	didtypes "github.com/medibloc/panacea-core/v2/x/did/types"
 )
 
 const (
@@ -70,6 +71,7 @@ type GenesisOpts struct {
 	InitialTime int64             `json:"-"`
 	DiskDB      bool              `json:"diskdb"` // goleveldb under the run's scratch home instead of MemDB
 	NoFastNode  bool              `json:"nofast"` // the operator's --iavl-disable-fastnode
+	LegacyDid   bool              `json:"legacydid"` // genesis holds a registry entry under key dc whose document describes d1 (pre-binding chains)
 }
 
 type Chain struct {
@@ -270,6 +272,12 @@ func (c *Chain) buildGenesis() (json.RawMessage, error) {
 		mintGen.Params.InflationRateChange = sdk.ZeroDec()
 	}
 	gs[minttypes.ModuleName] = cdc.MustMarshalJSON(&mintGen)
+	if c.Opts.LegacyDid {
+		doc := concDoc(M{"id": "d1", "vms": []any{M{"n": "v1", "key": "k1", "type": "es19"}}, "auth": []any{M{"n": "v1", "ded": false, "key": "", "type": ""}}, "asrt": []any{}, "ex": ""})
+		dg := didtypes.GenesisState{Documents: map[string]*didtypes.DIDDocumentWithSeq{
+			didtypes.GenesisDIDDocumentKey{DID: didDict["dc"]}.Marshal(): {Document: doc, Sequence: 0}}}
+		gs[didtypes.ModuleName] = cdc.MustMarshalJSON(&dg)
+	}
 	for mod, js := range c.Opts.CustomGen {
 		gs[mod] = json.RawMessage(js)
 	}
